@@ -254,13 +254,19 @@ def run(ctx):  # noqa: C901
     ctx.ob("R-ENUM", pg, "G_i == S (p_i rho_i) S with the same i, all i", oke, "sandwich with matching indices" if oke else "element formula or index pairing changed")
     pv = [n for n in walk_no_nested(pg.node) if isinstance(n, ast.Assign) and isinstance(n.targets[0], ast.Name) and n.targets[0].id == "p_var"]
     okv = False
-    if pv:
-        tv_ = Ng(pv[0].value)
+    pw_arg = None
+    for n_ in walk_no_nested(pg.node):
+        if isinstance(n_, ast.Call) and m.resolve_call(pg, n_).key == "scipy.linalg.fractional_matrix_power" and n_.args:
+            pw_arg = Normalizer(m, pg, inline=True)(n_.args[0])
+    if pv or pw_arg is not None:
+        tv_ = Ng(pv[0].value) if pv else pw_arg
+        if tv_[0] == "n" and pw_arg is not None:
+            tv_ = pw_arg
         cm_ = [s_ for s_ in subterms(tv_) if isinstance(s_, tuple) and s_ and s_[0] == "comp"]
         if tv_[0] == "call" and tv_[1] in ("builtins.sum", "numpy.sum") and cm_:
             i_ = cm_[0][3][0][0]
             e_ = cm_[0][2][0]
-            okv = e_[0] == "*" and ("sub", ("n", "probs"), i_) in e_[1] and ("sub", ("n", "states"), i_) in e_[1] and len(e_[1]) == 2 and cm_[0][3][0][1] == ("call", "builtins.range", (("n", "n"),), ())
+            okv = e_[0] == "*" and ("sub", ("n", "probs"), i_) in e_[1] and ("sub", ("n", "states"), i_) in e_[1] and len(e_[1]) == 2 and cm_[0][3][0][1] in (("call", "builtins.range", (("n", "n"),), ()), ("call", "builtins.range", (("call", "builtins.len", (("n", "states"),), ()),), ()))
     ctx.ob("R-ENUM", pg, "average state == sum_i p_i rho_i over all i", okv, "same-index pairing" if okv else "average state changed")
     pb = m.func("pretty_bad_measurement.pretty_bad_measurement")
     rets, _ = return_terms(m, pb, inline=False)
